@@ -53,10 +53,16 @@ T = {
  "C22-2": ("C22", "update_leases returns early when no lease is missing (a node that only loses a lease keeps it)", "rollover to another node, a PUT arriving through a node whose apply lags by that rollover, forwarded to the old leader"),
  "C23-1": ("C23", "update_leases scans for revocations only when the lease set has to shrink", "a rollover that leaves the node's lease count unchanged (to itself, or one topic lost and one gained) and a late append that is the first lease refresh afterwards"),
  "C23-2": ("C23", "update_leases returns early when the node leads no topic (the revocation of its last lease is skipped)", "a node whose only led topic rolls over to another node, then a late append for the sealed segment reaching it"),
+ "C23-3": ("C23", "update_leases prunes revoked leases only when the lease set has to shrink (test taken before the new keys are inserted) - the mechanism of C23-1, written independently", "a rollover that swaps a lease (to itself, or two topics changing hands) and a late append with the old key before any other refresh"),
+ "C23-4": ("C23", "forward_append no longer refreshes the leases before append_with_retry (only the 100 ms loop and the retry-after-rejection remain)", "an append with the sealed key reaching the old leader between the applied rollover and the next lease tick"),
  "C24-1": ("C24", "oversized-frame drain reads unbounded chunks", "oversized frame whose body is sent, pipelined following frames, body length not a multiple of the chunk size"),
  "C24-2": ("C24", "per-token trimming removes the payload's leading whitespace", "payload beginning with whitespace"),
+ "C24-3": ("C24", "the drain of a rejected oversized frame is capped at 16 * MAX_FRAME_LEN = 1 MiB", "an oversized frame announcing more than 1 MiB with its body sent, followed by more frames: the rest of the body is parsed as frames"),
+ "C24-4": ("C24", "`splitn(3, ' ').map(str::trim)` trims the payload too (the mechanism of C24-2, written independently)", "payload beginning with whitespace"),
  "C25-1": ("C25", "parse_wal_key splits at the first `_s_`", "topic whose key contains `_s_` before the separator (name contains `_s_`, ends in `_s`, is `s`, starts with `s_`)"),
  "C25-2": ("C25", "wal_key truncates the topic to 160 bytes", "topic longer than 160 bytes"),
+ "C25-3": ("C25", "parse_wal_key via strip_prefix + split_once (splits at the FIRST `_s_`; the mechanism of C25-1, written independently)", "topic containing `_s_` or ending in `_s`"),
+ "C25-4": ("C25", "wal_key writes the segment's digits into a 19-byte buffer (a u64 needs 20)", "segment number >= 10^19"),
 }
 for sid, (prop, what, needs) in sorted(T.items()):
     d = os.path.join(V, "seeded", sid)
